@@ -258,7 +258,11 @@ impl GenericsAnalyzer {
                             if &first_segment.ident == generic_param_ident {
                                 let where_paths = extract_trait_bounds(&predicate_type.bounds);
 
-                                deps_trait_bounds.extend(where_paths);
+                                deps_trait_bounds.extend(
+                                    where_paths.into_iter().map(|bound| {
+                                        with_bound_lifetimes(bound, &predicate_type.lifetimes)
+                                    }),
+                                );
                             }
                         }
                         _ => {
@@ -334,6 +338,22 @@ impl GenericsAnalyzer {
 
         Ok(deps)
     }
+}
+
+/// The bounds of a higher-ranked predicate `for<'a> D: Bound<'a>` are copied into `Self: ..`:
+/// the binder has to move onto each of them (`Self: for<'a> Bound<'a>`).
+fn with_bound_lifetimes(
+    mut bound: syn::TypeParamBound,
+    binder: &Option<syn::BoundLifetimes>,
+) -> syn::TypeParamBound {
+    if let syn::TypeParamBound::Trait(trait_bound) = &mut bound {
+        // (a bound with a binder of its own below another binder is rejected by rustc: E0316)
+        if trait_bound.lifetimes.is_none() {
+            trait_bound.lifetimes = binder.clone();
+        }
+    }
+
+    bound
 }
 
 fn extract_trait_bounds(
